@@ -259,6 +259,20 @@ CHECKS.update({
     ),
 })
 
+CHECKS.update({
+    "C20": (
+        "generated histories of register-type / use-algorithm / apply-algorithm operations; oracle = differential against the same history with all registrations first (fork-isolated for one history in six)",
+        "Hypothesis-generated histories over registering new Operator/Terminal types through @ufl_type, using and applying "
+        "generated MultiFunction/Transformer/DAGTraverser classes and nine shipped algorithms with catch-all rules: every "
+        "observation (result or exception class) must equal that of the registrations-first permutation, and no application "
+        "to a registered type may fail with IndexError/KeyError. One history in six runs in forked children of the pristine "
+        "worker (shipped classes first used inside the history); the others run in-process with fresh classes and unique "
+        "type names.",
+        "fork() isolates the registry; observation strings are compared up to Index numbering.",
+        "4/C20",
+    ),
+})
+
 NOT_YET = {}
 
 
